@@ -2,6 +2,7 @@
 from harness.framework import *
 from harness import gen_rf
 from harness.rfsession import run_line, parse_out, CFG_KEYS
+from harness import netsession
 
 
 def ble_op(rng, o):
@@ -68,22 +69,88 @@ def session(rng, nblocks, depth, overlap=False):
     return f"rf 1 {1 if plus else 0} " + " ; ".join(ops)
 
 
+def node_op(rng, n, kind="network"):
+    """configuration calls a user can make on a network / mesh node inside its block: the RadioMixin
+    pass-throughs, the node's own setters that touch the radio, and traffic that borrows pipe 0"""
+    k = rng.randrange(16)
+    if k == 0:
+        return f"{n} rf set channel {rng.choice([0, 5, 76, 97, 125])}"
+    if k == 1:
+        return f"{n} rf set pa_level {rng.choice([-18, -12, -6, 0])}"
+    if k == 2:
+        return f"{n} rf set data_rate {rng.choice([1, 2, 250])}"
+    if k == 3:
+        return f"{n} rf set crc {rng.choice([0, 1, 2])}"
+    if k == 4:
+        return f"{n} rf set_auto_retries {rng.choice([250, 1000, 1500, 4000])} {rng.randint(0, 15)}"
+    if k == 5:
+        return f"{n} rf set_dynamic_payloads {rng.choice('TF')} {rng.choice(['N', '0', '1', '3', '5'])}"
+    if k == 6:
+        return f"{n} rf interrupt_config {rng.choice('TF')} {rng.choice('TF')} {rng.choice('TF')}"
+    if k == 7:
+        return f"{n} rf set power {rng.choice('TF')}"
+    if k == 8:
+        return f"{n} rf set listen {rng.choice('TF')}"
+    if k == 9:
+        return f"{n} set multicast_level {rng.randint(0, 4)}"
+    if k == 10:
+        if kind in ("network", "routing"):    # mesh nodes get their address from the master
+            return f"{n} set node_address {rng.choice([1, 2, 0o13, 0o25, 0o124, 0o4321])}"
+        return f"{n} get node_address"
+    if k == 11:
+        return f"{n} multicast aa55 {rng.randint(0, 127)} {rng.choice(['N', '0', '1', '2', '3', '4'])}"
+    if k == 12:
+        if kind == "network":
+            return f"{n} write {rng.choice([0, 1, 0o12, 0o3])} {rng.randint(0, 127)} 01 56"
+        if kind in ("mesh", "master"):
+            return f"{n} mwrite {rng.choice([0, 1, 0o12, 0o3])} {rng.randint(0, 127)} 01"
+        return f"{n} update"       # routing-only nodes have no write()
+    if k == 13:
+        return rng.choice([f"{n} rf flush_rx", f"{n} rf flush_tx", f"{n} update", f"{n} rf get channel"])
+    if k == 14:
+        return f"{n} set allow_multicast {rng.choice('TF')}"
+    return f"{n} rf get_auto_retries"
+
+
+def net_session(rng, nblocks, depth):
+    """network / mesh nodes sharing ONE radio, each used inside its own `with` block (open system: nobody else
+    is on the air, transmissions fail after their time-outs)"""
+    nobj = rng.choice([2, 3])
+    names = ["a", "b", "c"][:nobj]
+    ops, kinds = [], {}
+    for n in names:
+        kind = kinds[n] = rng.choice(["network", "network", "routing", "mesh", "master"])
+        arg = {"network": rng.choice([0, 1, 0o12, 0o345]), "routing": rng.choice([0, 2, 0o23]),
+               "mesh": rng.randint(1, 200), "master": 0}[kind]
+        ops.append(f"new {n} {kind} 0 {arg}")
+        ops.append(f"{n} exit")
+    for _ in range(nblocks):
+        n = rng.choice(names)
+        ops.append(f"{n} enter")
+        ops += [node_op(rng, n, kinds[n]) for _ in range(rng.randint(0, depth))]
+        ops.append(f"{n} exit")
+    return "net 1 0 " + " ; ".join(ops)
+
+
 class C09(PropCheck):
     prop = "C09"
-    rule = ("interleavings of `with` blocks of 2-3 objects (RF24 and FakeBLE) sharing one simulated radio, each block a random "
+    rule = ("interleavings of `with` blocks of 2-3 objects (RF24 and FakeBLE; in a second block network / mesh nodes of every class, "
+            "driven through the RadioMixin pass-throughs, node_address / multicast_level and traffic) sharing one simulated radio, each block a random "
             "sequence over the C03 alphabet (FakeBLE: its permitted subset, hop_channel, the calls it rejects); at every "
             "__enter__ the whole register file is compared with what the object had established at its previous __exit__; "
             "non-trivial = some object re-enters after another object changed a register")
     assumptions = ["objects are used only inside their own `with` block (the property's hypothesis)",
-                   "network / mesh nodes restore through the same RF24.__enter__ (RadioMixin.__enter__ delegates)"]
+                   "a node that transmits inside its block finds nobody on the air (open system): the transmissions fail after "
+                   "their time-outs, which is what exercises the pipe-0 borrowing and its restoration"]
 
     def impl(self, line):
-        return run_line(line)
+        return netsession.run_line(line) if line.startswith("net ") else run_line(line)
 
     def cases(self, res, tier, rng):
         n, nb, d = (200, 8, 10) if tier == "quick" else (3000, 14, 16)
         cs = [(session(rng, nb, d), "with-interleavings") for _ in range(n)]
         cs += [(session(rng, nb, 4, overlap=True), "overlapping-blocks") for _ in range(n // 4)]
+        cs += [(net_session(rng, nb, max(3, d // 2)), "node-with-interleavings") for _ in range(n // 2)]
         return cs
 
     def nontrivial(self, line, io):
@@ -96,7 +163,7 @@ class C09(PropCheck):
         seen = {f.case for f in out}
         lines, where = [], []
         for l, io, mo in triples:
-            if " enter" not in l or not l.startswith("rf 1 ") or l in seen:
+            if " enter" not in l or not l.startswith(("rf 1 ", "net 1 0 ")) or l in seen:
                 continue
             names, ops = l.split(" ; "), parse_out(io)
             est = {}
@@ -137,7 +204,7 @@ class C09(PropCheck):
     def judge_py(self, triples):
         out = []
         for l, io, mo in triples:
-            if " enter" not in l or not l.startswith("rf 1 "):
+            if " enter" not in l or not l.startswith(("rf 1 ", "net 1 0 ")):
                 continue
             names, ops = l.split(" ; "), parse_out(io)
             est = {}     # object -> registers it last established
